@@ -184,6 +184,21 @@ impl Default for GenOpts {
 }
 
 pub fn gen_abs(rng: &mut Rng, fmt: Fmt, o: &GenOpts) -> AbsFile {
+    // under Miri (about four orders of magnitude slower) inputs are kept tiny; small
+    // capacities still force refills, compaction and growth
+    let small;
+    let o = if cfg!(miri) {
+        small = GenOpts {
+            max_recs: o.max_recs.min(4),
+            max_line: o.max_line.min(6),
+            giant: o.giant.min(2),
+            giant_len: o.giant_len.min(24),
+            ..o.clone()
+        };
+        &small
+    } else {
+        o
+    };
     let n = if rng.chance(1, 20) {
         0
     } else {
